@@ -1238,3 +1238,102 @@ pub fn gen_megaline(rng: &mut Rng) -> (String, String) {
     new.push_str("tail two\n");
     (old, new)
 }
+
+/// A composite giant: a handful of blocks (unique items, a run of one item, a
+/// periodic run, random items over a small alphabet) whose lengths are drawn
+/// log-uniformly up to 2^15, and a new side derived by block-level edits
+/// (keep / grow / tweak a few items; at most one massive edit: drop, duplicate
+/// or replace a whole block).  Sweeps run lengths, gap sizes, slide distances,
+/// distinct counts and lopsidedness over four orders of magnitude instead of
+/// hand-picked thresholds, while keeping the edit distance small enough to
+/// diff quickly.
+pub fn gen_composite(rng: &mut Rng) -> (Vec<u32>, Vec<u32>) {
+    let nblocks = 2 + rng.usize(6);
+    let mut fresh = 10_000_000u32;
+    let mut old: Vec<u32> = Vec::new();
+    let mut new: Vec<u32> = Vec::new();
+    let massive_at = if rng.chance(2, 3) { Some(rng.usize(nblocks)) } else { None };
+    for b in 0..nblocks {
+        let bits = rng.usize(16);
+        let len = ((1usize << bits) + rng.usize(1 << bits)).min(40_000);
+        if old.len() + len > 70_000 {
+            break;
+        }
+        let kind = rng.below(4);
+        let sym = rng.below(6) as u32;
+        let period = 2 + rng.usize(3);
+        let alpha = 2 + rng.below(30) as u32;
+        let mut block: Vec<u32> = Vec::with_capacity(len);
+        for i in 0..len {
+            block.push(match kind {
+                0 => {
+                    fresh += 1;
+                    fresh
+                }
+                1 => sym,
+                2 => (i % period) as u32 + 100,
+                _ => rng.below(alpha as u64) as u32 + 1000,
+            });
+        }
+        old.extend_from_slice(&block);
+        // the new side's version of this block
+        if massive_at == Some(b) {
+            match rng.below(3) {
+                0 => {} // dropped
+                1 => {
+                    new.extend_from_slice(&block);
+                    new.extend_from_slice(&block);
+                }
+                _ => {
+                    for _ in 0..1 + rng.usize(40) {
+                        fresh += 1;
+                        new.push(fresh);
+                    }
+                }
+            }
+        } else {
+            match rng.below(10) {
+                0 => {
+                    // grows by a few items of its own kind
+                    new.extend_from_slice(&block);
+                    let extra = 1 + rng.usize(3);
+                    for i in 0..extra.min(block.len().max(1)) {
+                        new.push(*block.get(i).unwrap_or(&sym));
+                    }
+                }
+                1 | 2 => {
+                    // a few items changed, inserted or removed inside
+                    let mut nb = block.clone();
+                    for _ in 0..1 + rng.usize(3) {
+                        if nb.is_empty() {
+                            break;
+                        }
+                        let at = rng.usize(nb.len());
+                        match rng.below(3) {
+                            0 => {
+                                fresh += 1;
+                                nb[at] = fresh;
+                            }
+                            1 => {
+                                nb.remove(at);
+                            }
+                            _ => {
+                                let x = nb[at];
+                                nb.insert(at, x);
+                            }
+                        }
+                    }
+                    new.extend_from_slice(&nb);
+                }
+                _ => new.extend_from_slice(&block),
+            }
+        }
+        // sometimes a small separator that differs between the sides
+        if rng.chance(1, 3) {
+            fresh += 2;
+            old.push(fresh - 1);
+            new.push(if rng.chance(1, 2) { fresh - 1 } else { fresh });
+        }
+    }
+    (old, new)
+}
